@@ -62,12 +62,21 @@ Routes == { [name |-> "new",          dom |-> "i64",  checked |-> TRUE, total |-
             [name |-> "json_any",     dom |-> "json", checked |-> TRUE, total |-> TRUE],
             [name |-> "json_any_key", dom |-> "json", checked |-> TRUE, total |-> TRUE],
             [name |-> "json_any_nested", dom |-> "json", checked |-> TRUE, total |-> TRUE],
-            [name |-> "smile_any",    dom |-> "u64",  checked |-> TRUE, total |-> TRUE] }
+            [name |-> "smile_any",    dom |-> "u64",  checked |-> TRUE, total |-> TRUE],
+            (* Smile carries 128-bit integers as BigInteger: acceptance of in-range values is a don't-care (total = FALSE, *)
+            (* serde's 64-bit visitors may refuse a 128-bit token), a value outside the range must never come out        *)
+            [name |-> "smile_i128",   dom |-> "i128", checked |-> TRUE, total |-> FALSE],
+            [name |-> "smile_u128",   dom |-> "u128", checked |-> TRUE, total |-> FALSE],
+            [name |-> "smile_any_u128", dom |-> "u128", checked |-> TRUE, total |-> FALSE],
+            [name |-> "smile_list_u128", dom |-> "u128", checked |-> TRUE, total |-> FALSE] }
 
 (* Mech: "ok" keeps the value; the unchecked routes accept everything in their (narrow) domain.            *)
 (* total = FALSE marks a route whose acceptance the property does not demand: a dynamic value built from a  *)
 (* Rust i128 is carried as a 128-bit integer, which serde's 64-bit visitors never accept (don't-care).      *)
-Mech(r, x) == IF ~r.total THEN "err"
+(* serde_smile hands a BigInteger that fits 64 bits to the 64-bit visitors: the Smile 128-bit routes behave like checked ones *)
+Narrowing == {"smile_i128", "smile_u128", "smile_any_u128", "smile_list_u128"}
+Mech(r, x) == IF r.name \in Narrowing THEN (IF InSafe(x) THEN "ok" ELSE "err")
+              ELSE IF ~r.total THEN "err"
               ELSE IF ~r.checked THEN "ok"
               ELSE IF ~InI64(x) THEN "err"          \* i64::try_from / i64::from_str / i64::deserialize fails
               ELSE IF InSafe(x) THEN "ok" ELSE "err" \* SafeLong::new
